@@ -319,6 +319,17 @@ func (t *T) Resume() {
 	t.mu.Unlock()
 }
 
+// StallNow makes the peer go silent again from this instant on (a second stall, after a Resume):
+// nothing the peer emits from now on is delivered.
+func (t *T) StallNow() {
+	t.K.Yield("tr.stall")
+	t.mu.Lock()
+	t.F.StallAt = len(t.out)
+	t.resumed = false
+	t.FaultFired["stall-again"]++
+	t.mu.Unlock()
+}
+
 // Delivered is the number of peer bytes handed to the client so far.
 func (t *T) Delivered() int {
 	t.mu.Lock()
